@@ -638,6 +638,22 @@ func runC13(m *Sim) {
 		m.Probe("c13.late-registration")
 	}
 	n := h.N
+	if !lateRegistration && m.C.Chance("real-peer", 1, 2) {
+		// A second real server; the two list each other (the normal redundant
+		// set-up). It only receives what srv0 forwards - new devices, new
+		// servers -, and its handlers pass their own yield points while srv0's
+		// forwarding goroutine waits for the answer: a lock srv0 holds across
+		// that call is seen by the lock probe.
+		b := w.AddServer("peer0", "temp-peer0", true)
+		b.Boot()
+		b.DoRegister(h.GCA.Pub, b.Temp)
+		for _, target := range []*ServerNode{n, b} {
+			for _, subj := range []*ServerNode{n, b} {
+				target.DoAuthorizeServer(SignServer(h.GCA, server.AuthorizedServer{PublicKey: subj.Key.Pub, Location: subj.Loc, HttpPort: subj.HTTP, TcpPort: subj.TCP, UdpPort: subj.UDP}))
+			}
+		}
+		m.Probe("c13.real-peer")
+	}
 	// Every mutex must be free at every quiescent point.
 	m.QuiesceCheck = func() {
 		for _, name := range sortedKeys(w.Servers) {
@@ -647,7 +663,7 @@ func runC13(m *Sim) {
 			}
 			a, b, c := s.S.VerifTryLocks()
 			if !a || !b || !c {
-				m.Fail("C13.lock", w.Phase, "a mutex of %s is held while every goroutine is parked or blocked (main=%v servers=%v limiter=%v)", name, a, b, c)
+				m.Fail("C13.lock", "held-at-rest", "a mutex of %s is held while every goroutine is parked or blocked (main=%v servers=%v limiter=%v, phase %s)", name, a, b, c, w.Phase)
 			}
 		}
 	}
